@@ -265,6 +265,8 @@ package parse
 
 //@ func EncodeURL
 //@   ensures[S]  len(result) >= len(b)
+// DecodeURL gives '%' and '+' a meaning of their own, so the tables it is to invert must escape those two bytes
+//@   ensures[F,C16] @tables-invertible: URLEncodingTable['%'] && URLEncodingTable['+'] && DataURIEncodingTable['%'] && DataURIEncodingTable['+']
 //@   loop * candidate 0 <= i && i <= len(b)
 //@   loop * candidate len(b) >= len(old(b))
 
